@@ -447,3 +447,40 @@ def tour(tier, seed, features=(), release=False):
            "exhaustive": drift == 0 and unreachable == 0, "wall_s": round(time.time() - t0, 1), "cached": False}
     cache_put("tour", key, res)
     return res
+
+
+def capacity(tier, seed):
+    """C12 at the real 2^24 limit: bulk events from a release build validated against Capacity.tla."""
+    key = key_of("capacity", repo_hash(), verif_hash(), tier)
+    c = cache_get("capacity", key)
+    if c:
+        c["cached"] = True
+        return c
+    t0 = time.time()
+    rc, out, dt = run_tlc("CapacityMC", workers=2, timeout=600)
+    if "No error has been found" not in out:
+        raise ToolError("CapacityMC failed:\n" + out[-2000:])
+    st = tlc_stats(out)
+    binp = build_harness((), True)
+    trace = os.path.join(_trace_dir(), "bigcap-%s.ndjson" % key[:10])
+    rc, o, dt = sh([binp, "bigcap", "--out", trace] + (["--thorough"] if tier == "thorough" else []), timeout=1800, check=False)
+    violations = []
+    if rc != 0:
+        violations.append({"tags": ["C12", "C10", "C03"], "what": "the process died during the real-limit capacity run (rc=%d)" % rc, "at": 0,
+                           "event": {"last": open(trace).read()[-400:] if os.path.exists(trace) else ""}, "origin": {"engine": "capacity"}})
+        viol, tst = [], {}
+    else:
+        viol, tst = validate_trace(trace, module="TraceCapacity")
+    n, ops = _count_ops(trace)
+    violations += _collect(trace, viol, {"engine": "capacity"})
+    created = 0
+    with open(trace) as f:
+        evs = [json.loads(l) for l in f]
+    created = sum(e.get("done", 0) for e in evs)
+    res = {"engine": "capacity", "tier": tier, "traces": 1, "events": n, "ops": ops, "real_creations": created, "real_max": 1 << 24,
+           "tlc_states": st.get("distinct", 0) + tst.get("distinct", 0), "tlc_transitions": st.get("generated", 0) + tst.get("generated", 0),
+           "violations": violations, "samples": [ev for ev in evs[5:8]], "wall_s": round(time.time() - t0, 1), "cached": False}
+    if not violations:
+        os.remove(trace)
+    cache_put("capacity", key, res)
+    return res
